@@ -9,6 +9,14 @@
 mod alloc;
 mod c22;
 mod c29;
+mod c19;
+mod gen;
+mod c04;
+mod damage;
+mod disk;
+mod simdisk;
+mod synth;
+mod trace;
 mod common;
 mod runner;
 mod sched;
@@ -21,7 +29,7 @@ use runner::*;
 static GLOBAL: alloc::Tracking = alloc::Tracking;
 
 fn props() -> Vec<Box<dyn Property>> {
-    vec![Box::new(c22::C22), Box::new(c29::C29)]
+    vec![Box::new(c04::C04), Box::new(c19::C19), Box::new(c22::C22), Box::new(c29::C29)]
 }
 
 fn find(id: &str) -> Option<Box<dyn Property>> {
